@@ -24,6 +24,7 @@ func runC05(c *Ctx, r *Report) {
 	c05Open(c, r)
 	c05NF(c, r)
 	c05VerbCursor(c, r)
+	c05NoAliasedEmission(c, r)
 }
 
 // ---- R05.7 -----------------------------------------------------------------
@@ -556,4 +557,68 @@ func c05VerbCursor(c *Ctx, r *Report) {
 func isIntType(t types.Type) bool {
 	b, ok := t.Underlying().(*types.Basic)
 	return ok && b.Kind() == types.Int
+}
+
+// ---- R05.9 ------------------------------------------------------------------
+// One record object is handed downstream once.
+func c05NoAliasedEmission(c *Ctx, r *Report) {
+	r.Rule("R05.9", "a record object is emitted once: in the verbs, an append to the output list that sits in a loop appends a value created inside that loop (a copy, a new record) — appending the same incoming record pointer on every iteration makes the copies aliases of one object, and a later verb in the same chain then modifies 'all of them' at once, which a pipe between the two verbs would not")
+	n := 0
+	for _, fn := range c.ModuleFunctions() {
+		if fn.Pkg == nil || !strings.HasSuffix(fn.Pkg.Pkg.Path(), "/pkg/transformers") {
+			continue
+		}
+		k := 0
+		for _, b := range fn.Blocks {
+			for _, in := range b.Instrs {
+				call, ok := in.(*ssa.Call)
+				if !ok {
+					continue
+				}
+				bi, ok := call.Call.Value.(*ssa.Builtin)
+				if !ok || bi.Name() != "append" || len(call.Call.Args) != 2 {
+					continue
+				}
+				if !strings.Contains(call.Type().String(), "RecordAndContext") {
+					continue
+				}
+				// the single appended element: varargs array with one store
+				sl, ok := call.Call.Args[1].(*ssa.Slice)
+				if !ok {
+					continue
+				}
+				al, ok := sl.X.(*ssa.Alloc)
+				if !ok {
+					continue
+				}
+				var elem ssa.Value
+				for _, ref := range *al.Referrers() {
+					if ia, ok := ref.(*ssa.IndexAddr); ok {
+						for _, r2 := range *ia.Referrers() {
+							if st, ok := r2.(*ssa.Store); ok && st.Addr == ia {
+								elem = st.Val
+							}
+						}
+					}
+				}
+				if elem == nil || !blockReachesSelf(b) {
+					continue
+				}
+				n++
+				k++
+				key := fmt.Sprintf("%s: append in a loop #%d", SSAName(fn), k)
+				invariant := false
+				switch x := elem.(type) {
+				case *ssa.Parameter:
+					invariant = true
+				case ssa.Instruction:
+					db := x.Block()
+					invariant = !(blockReaches(b, db) && blockReaches(db, b)) && db != b
+				}
+				r.Check(!invariant, "R05.9", key, c.Rel(call.Pos()), "the appended value is created inside the loop",
+					fmt.Sprintf("%s appends, inside a loop, a record-and-context value that is the same on every iteration: the output holds several pointers to one record, so a later verb in the chain changes them all at once (a pipe would not)", SSAName(fn)))
+			}
+		}
+	}
+	r.Floor("R05.9", "appends to the output list inside loops", n, 20)
 }
